@@ -30,7 +30,8 @@ ASSUMPTIONS = [
 EXTS = ["py", "rs", "js", "md", "go", "sh"]
 OPENER = {"py": "#", "rs": "//", "js": "//", "md": None, "go": "//", "sh": "#"}
 DIRS = ["", "", "src", "src/core", "docs", "a", "b", "b/b", "a/b", "dir with space", "dots.in.name", "gen", "rooted",
-        "src/gen", ".hidden", "src/.cache", "deep/er/still/more", "notes.md", "pkg/build", "gen,old"]
+        "src/gen", ".hidden", "src/.cache", "deep/er/still/more", "notes.md", "pkg/build", "gen,old",
+        ".github/workflows", ".gitlab", ".hgext"]        # hidden, only reachable through a diff; their names merely *begin* like .git / .hg
 STEMS = ["main", "util", "x y", "mod.test", "readme", "b", "a", "gen", "data.gen", "w", "2024,q1", "build"]
 
 
@@ -129,7 +130,7 @@ def one_case(ctx, r, desc):
         d = r.choice(DIRS)
         name = "%s.%s" % (r.choice(STEMS), r.choice(EXTS))
         if r.random() < 0.08:
-            name = "." + name
+            name = r.choice([".", ".", ".gitlab-ci-", ".hg-"]) + name
         elif r.random() < 0.06:
             name = r.choice(["Makefile", "makefile"])     # registered by whole name: a path without any dot when the directory has none
         paths.add((d + "/" if d else "") + name)
